@@ -115,10 +115,14 @@ type Object struct {
 	isTimer     bool
 	timerActive bool
 	tickPeriod  int64 // > 0: a ticker, which stays armed after it fires and advances the clock by its period (ns)
+	// time.AfterFunc with the "@afterfunc": "fire" policy: the callback and its deadline on the modelled clock
+	hasAfter bool
+	afterFn  FuncVal
+	timerAt  int64
 }
 
 func (o *Object) clone(epoch int) *Object {
-	n := &Object{kind: o.kind, epoch: epoch, label: o.label, closed: o.closed, bufcap: o.bufcap, isTimer: o.isTimer, timerActive: o.timerActive, tickPeriod: o.tickPeriod}
+	n := &Object{kind: o.kind, epoch: epoch, label: o.label, closed: o.closed, bufcap: o.bufcap, isTimer: o.isTimer, timerActive: o.timerActive, tickPeriod: o.tickPeriod, hasAfter: o.hasAfter, afterFn: o.afterFn, timerAt: o.timerAt}
 	if o.slots != nil {
 		n.slots = make([]Value, len(o.slots))
 		copy(n.slots, o.slots)
